@@ -573,6 +573,7 @@ func c15Replay(args []string) int {
 		sel := selectorSpelling(e.Act, e.Pre)
 		inputMutated := false
 		notRepeatable := false
+		paramsModified := false
 		chain := len(e.Hist) > 1
 		startIR := any(e.Pre)
 		if chain {
@@ -614,6 +615,7 @@ func c15Replay(args []string) int {
 			var out verifapi.Schemas
 			var perr error
 			panicked := ""
+			paramsBefore, _ := json.Marshal(passes)
 			func() {
 				defer func() {
 					if r := recover(); r != nil {
@@ -622,6 +624,10 @@ func c15Replay(args []string) int {
 				}()
 				out, perr = passes.Process(schemas)
 			}()
+			// a pass never modifies its own parameters (they are applied again for the next output language)
+			if paramsAfter, _ := json.Marshal(passes); !viaYAML && string(paramsBefore) != string(paramsAfter) {
+				paramsModified = true
+			}
 			if panicked != "" {
 				return nil, false, "panic: " + panicked
 			}
@@ -737,6 +743,11 @@ func c15Replay(args []string) int {
 				exc["diff"] = J{"path": strings.Join(d.Path, "."), "want": d.Want, "got": d.Got}
 				fails = append(fails, failure{fmt.Sprintf("C15/%s/%s/sel=%s", actName, cls, sel), exc})
 			}
+		}
+		if paramsModified {
+			fails = append(fails, failure{fmt.Sprintf("C15/%s/pass-parameters-modified/sel=%s", actName, sel),
+				J{"pre": e.Pre, "act": e.Act, "expected": e.Post, "route": "direct", "init": e.Init, "hist": e.Hist,
+					"problem": "Process modified the parameters of the passes it was given"}})
 		}
 		if notRepeatable {
 			// a Go-side clause of its own: the FIRST application is what TLC judges against the specification (okEdge)
